@@ -335,7 +335,7 @@ where
     #[inline(always)]
     unsafe fn get_unchecked(&self, i: usize) -> Self::Item {
         let mut cur_i = i;
-        let mut result: u32 = 0;
+        let mut result: u128 = 0; // wide enough for every element type (and for a 32-bit code)
 
         let mut shift = 0;
 
@@ -345,7 +345,7 @@ where
             }
 
             let symbol = self.bvs[level].get_unchecked(cur_i);
-            result = (result << 1) | symbol as u32;
+            result = (result << 1) | symbol as u128;
 
             let tmp = self.bvs[level].rank1_unchecked(cur_i);
 
@@ -359,7 +359,7 @@ where
 
         if COMPRESSED {
             let idx = self.codes_decode.as_ref().unwrap()[shift]
-                .binary_search_by_key(&result, |(x, _)| *x)
+                .binary_search_by_key(&(result as u32), |(x, _)| *x)
                 .expect("could not translate symbol");
 
             T::from(self.codes_decode.as_ref().unwrap()[shift][idx].1).unwrap()
@@ -401,14 +401,14 @@ where
         let mut cur_p = 0;
 
         let symbol_len;
-        let repr;
+        let repr: u128;
 
         if COMPRESSED {
             let code = &self.codes_encode.as_ref().unwrap()[symbol.as_() as usize];
             symbol_len = code.len as usize;
-            repr = code.content;
+            repr = code.content as u128;
         } else {
-            repr = symbol.as_() as u32;
+            repr = symbol.to_u128().unwrap(); // every supported element type fits
             symbol_len = self.n_levels;
         }
 
@@ -453,14 +453,14 @@ where
         }
 
         let symbol_len;
-        let repr;
+        let repr: u128;
 
         if COMPRESSED {
             let code = &self.codes_encode.as_ref().unwrap()[symbol.as_() as usize];
             symbol_len = code.len as usize;
-            repr = code.content;
+            repr = code.content as u128;
         } else {
-            repr = symbol.as_() as u32;
+            repr = symbol.to_u128().unwrap(); // every supported element type fits
             symbol_len = self.n_levels;
         }
         let mut b = 0;
